@@ -385,7 +385,7 @@ class Discovery (EventMixin):
       for t in lldph.tlvs[3:]:
         if t.tlv_type == pkt.lldp.SYSTEM_DESC_TLV:
           # This is our favored way...
-          for line in t.payload.decode().split('\n'):
+          for line in t.payload.decode('latin-1').split('\n'):
             if line.startswith('dpid:'):
               try:
                 return int(line[5:], 16)
@@ -418,7 +418,7 @@ class Discovery (EventMixin):
           if len(lldph.tlvs[0].id) == 6:
             try:
               s = lldph.tlvs[0].id
-              originatorDPID = struct.unpack("!Q",'\x00\x00' + s)[0]
+              originatorDPID = struct.unpack("!Q",b'\x00\x00' + s)[0]
             except:
               pass
 
